@@ -656,6 +656,8 @@ def error_cases(W):
             ("from_array(mask shape)", lambda: pyflwdir.from_array(np.zeros(W.shape, dtype=np.uint8), ftype="d8", mask=np.ones((1, 1))), "ValueError"),
             ("FlwdirRaster(bad ftype)", lambda: pyflwdir.FlwdirRaster(f.idxs_ds.copy(), W.shape, "d9"), "ValueError"),
             ("FlwdirRaster(bad shape)", lambda: pyflwdir.FlwdirRaster(f.idxs_ds.copy(), (W.shape[0] + 1, W.shape[1]), "d8"), "ValueError"),
+            ("FlwdirRaster(1-D shape)", lambda: pyflwdir.FlwdirRaster(f.idxs_ds.copy(), (W.n,), "d8"), "ValueError"),
+            ("FlwdirRaster(3-D shape)", lambda: pyflwdir.FlwdirRaster(f.idxs_ds.copy(), (1, W.shape[0], W.shape[1]), "d8"), "ValueError"),
             ("fill_depressions(connectivity=6)", lambda: dem.fill_depressions(W.arr("elevf", np.float32), connectivity=6), "ValueError"),
             ("area_grid(unit='x')", lambda: g.area_grid(W.transform, W.shape, unit="x"), "ValueError"),
             ("xy(offset='x')", lambda: g.xy(W.transform, 0, 0, offset="x"), "ValueError"),
